@@ -498,19 +498,49 @@ def canon_plans(tier):
                 plans.append((which, n, tuple(range(1 << n))))
     plans += [("p", 4, (1, 2, 4, 6, 8, 9, 12, 15)), ("n", 4, (0, 3, 5, 6, 9, 10, 12, 15)), ("n", 4, (1, 2, 4, 7, 8, 11, 13, 14)),
               ("n", 7, (2, 64, 65, 127)), ("n", 7, (0, 63, 66, 126))]
+    # two-block tables with the run-time generators replaced by a short closed cycle over the variables 4, 5, 6
+    # (the walk then visits the 6 permutations of those three inputs, and the output polarity for npn)
+    sub = dict(swaps=[5, 4, 5, 4, 5, 4], flips=[])
+    plans += [("npn", 7, (48, 80, 96, 1), sub), ("p", 7, (48, 80, 96, 17), sub), ("npn", 7, (16, 32, 64, 112), sub)]
     if tier == "thorough":
-        plans += [("npn", 4, (1, 2, 4, 7, 8, 14)), ("p", 5, (1, 2, 4, 8, 16, 31)), ("n", 8, (3, 64, 130, 255))]
-    return plans
+        plans += [("npn", 4, (1, 2, 4, 7, 8, 14)), ("p", 5, (1, 2, 4, 8, 16, 31)), ("n", 8, (3, 64, 130, 255)), ("npn", 8, (48, 80, 96, 160, 192), sub)]
+    return [pl if len(pl) == 4 else pl + (None,) for pl in plans]
 
 
 _canon_eval_cache = {}
 
 
-def canon_eval(env, kind, which, n, window):
+def _generator_stubs(env, it, stub):
+    """replace the run-time sequence generators (local fn(usize, bool) -> Vec<u8>) by short fixed sequences: the
+    public methods then walk a small subgroup, which makes multi-block sizes affordable"""
+    from ..absint import Outcome
+    for gb in env.facts.lib_bodies():
+        sig = gb.get("sig") or {}
+        ins = sig.get("inputs") or []
+        if not (len(ins) == 2 and ins[0]["k"] == "uint" and ins[1]["k"] == "bool" and "Vec<u8>" in sig["output"].get("s", "")):
+            continue
+        it0 = env.interp(max_steps=20000000)
+        outs0 = it0.call_body(gb, [usize(3), wbool(True)], State(), {})
+        if len(outs0) != 1 or outs0[0].kind != "return":
+            raise Undecided("generator %s not evaluated" % gb["path"])
+        ln = it0.slice_len(outs0[0].state, outs0[0].value)
+        role = "swaps" if ln == 6 else ("flips" if ln == 8 else None)
+        if role is None:
+            raise Undecided("generator %s not recognised" % gb["path"])
+        seq = stub[role]
+
+        def f(interp, fr, args, st, pc, t, seq=seq):
+            cell = new_cell()
+            st.mem[cell] = Arr([wconst(8, x) for x in seq])
+            return [Outcome("return", st, pc, Ptr(cell, (), (0, len(seq)), "vec"))]
+        it.opaque_fns[gb["key"]] = f
+
+
+def canon_eval(env, kind, which, n, window, stub=None):
     """the public canonization method in window mode on a table whose bits `window` are symbolic (0 elsewhere):
     -> {choice index r: ('value', table int, perm or None, mask or None) | ('panic', msg)}  (every choice exactly once)"""
     from ..harness import Space
-    ck = (id(env.facts), kind, which, n, window)
+    ck = (id(env.facts), kind, which, n, window, repr(stub))
     if ck in _canon_eval_cache:
         return _canon_eval_cache[ck]
     K = env.kinds[kind]
@@ -524,6 +554,8 @@ def canon_eval(env, kind, which, n, window):
     it.split_all = True
     it.memo_pure = True
     it.space = space
+    if stub is not None:
+        _generator_stubs(env, it, stub)
     st = State()
     words = [W(64, bits=[B.atom("a[%d]" % (w_ * 64 + p_)) if (w_ * 64 + p_) in window else ZERO for p_ in range(64)]) for w_ in range(table_words(n))]
     pl = K.place(st, K.mk(st, n, words))
@@ -572,13 +604,29 @@ def canon_windows(chk, prop):
     rule = prop + ".X"
     for kind in ("dyn", "static"):
         K = env.kinds[kind]
-        for which, n, window in canon_plans(chk.tier):
+        for which, n, window, stub in canon_plans(chk.tier):
             b = K.method(CANON_METHOD[which])
-            key = "%s::%s_canonization n=%d, table bits %s symbolic" % (K.adt, which, n, "all" if len(window) == 1 << n else list(window))
+            key = "%s::%s_canonization n=%d, table bits %s symbolic%s" % (K.adt, which, n, "all" if len(window) == 1 << n else list(window),
+                                                                          ", generators replaced by the cycle %s" % stub["swaps"] if stub else "")
             try:
-                res = canon_eval(env, kind, which, n, window)
+                res = canon_eval(env, kind, which, n, window, stub)
                 perms = list(itertools.permutations(range(n))) if which in ("p", "npn") else [tuple(range(n))]
                 masks = list(range(1 << (n + 1))) if which in ("n", "npn") else [0]
+                if stub is not None:
+                    # the subgroup the short cycle generates (adjacent transpositions), output polarity only
+                    gens = sorted(set(stub["swaps"]))
+                    seenp = {tuple(range(n))}
+                    todo_ = [tuple(range(n))]
+                    while todo_:
+                        pm_ = todo_.pop()
+                        for g_ in gens:
+                            q_ = list(pm_)
+                            q_[g_], q_[g_ + 1] = q_[g_ + 1], q_[g_]
+                            if tuple(q_) not in seenp:
+                                seenp.add(tuple(q_))
+                                todo_.append(tuple(q_))
+                    perms = sorted(seenp)
+                    masks = [0, 1 << n] if which == "npn" else [0]
                 v, d = PROVED, ""
                 for r_ in range(1 << len(window)):
                     f = sum(((r_ >> j) & 1) << p_ for j, p_ in enumerate(window))
@@ -590,7 +638,7 @@ def canon_windows(chk, prop):
                     if prop == "C04":
                         best = min(_apply_concrete(n, f, pm, mk) for pm in perms for mk in masks)
                         if got != best:
-                            v, d = REFUTED, "for the table %#x the representative returned is %#x, the smallest table in its %s orbit is %#x" % (f, got, which.upper(), best)
+                            v, d = REFUTED, "for the table %#x the representative returned is %#x, the smallest table in its %s orbit%s is %#x" % (f, got, which.upper(), " under the walked subgroup" if stub else "", best)
                             break
                     else:
                         pm = perm if perm is not None else tuple(range(n))
